@@ -656,3 +656,50 @@ func AlignTo(s *Spec, target string, mod, off int) bool {
 	}
 	return false
 }
+
+
+// ShapeSpec builds the bundle of a dense one-dimensional sweep: everything small except ONE
+// size or count, which is n. Shapes: "exchanges" (n exchanges with one-octet bodies), "headers"
+// (one response with n header fields), "body-octets", "url-octets" (n octets appended to the
+// path), "value-octets" (one header value of n octets), "signatures" (n vouched subsets). The
+// version alternates with n.
+func ShapeSpec(shape string, n int) (*Spec, bool) {
+	if n < 0 || n > 1<<20 {
+		return nil, false
+	}
+	s := &Spec{Version: []string{"b2", "b1"}[n%2], Primary: "https://a.example/e0"}
+	one := func(u string) ExSpec {
+		return ExSpec{URL: u, Status: 200, Headers: []gen.HeaderKV{{Name: "Content-Type", Values: []string{"text/plain"}}}, BodyLen: 1, BodyTag: uint64(n)}
+	}
+	switch shape {
+	case "exchanges":
+		for i := 0; i < n; i++ {
+			s.Exchanges = append(s.Exchanges, one(fmt.Sprintf("https://a.example/e%d", i)))
+		}
+		if n == 0 && s.Version == "b1" {
+			s.Exchanges = append(s.Exchanges, one("https://a.example/e0"))
+		}
+	case "headers":
+		e := one("https://a.example/e0")
+		e.Headers = nil
+		for i := 0; i < n; i++ {
+			e.Headers = append(e.Headers, gen.HeaderKV{Name: fmt.Sprintf("X-H%04d", i), Values: []string{"v"}})
+		}
+		s.Exchanges = []ExSpec{e}
+	case "body-octets":
+		e := one("https://a.example/e0")
+		e.BodyLen = n
+		s.Exchanges = []ExSpec{e, one("https://a.example/e1")}
+	case "url-octets":
+		u := "https://a.example/e0" + strings.Repeat("u", n)
+		s.Primary = u
+		s.Exchanges = []ExSpec{one(u), one("https://a.example/a")}
+	case "value-octets":
+		e := one("https://a.example/e0")
+		e.Headers = append(e.Headers, gen.HeaderKV{Name: "X-Long", Values: []string{strings.Repeat("w", n)}})
+		s.Exchanges = []ExSpec{e}
+	default:
+		return nil, false
+	}
+	return s, true
+}
